@@ -241,7 +241,7 @@ def generate(run_seed, prop, tier="quick"):
         add_client("foreign", None, [{"op": "foreign_rng", "seed": rng.randrange(10 ** 6)}
                                      for _ in range(rng.randint(1, 3))])
     if faults_enabled["foreign"] and rng.random() < 0.4:
-        add_client("helper", None, [{"op": "helper_call", "how": rng.choice(["compute_mass_plain", "rebuild_h_plain", "both"]),
+        add_client("helper", None, [{"op": "helper_call", "how": rng.choice(["compute_mass_plain", "rebuild_h_plain", "both", "rebuild_h_keep_bonding"]),
                                      "smiles": rng.choice(["CCO", "c1ccccc1C", "CC(=O)[O-]", "C#N"])}
                                     for _ in range(rng.randint(1, 2))])
     # --- schedule -------------------------------------------------------------
@@ -576,6 +576,12 @@ class _Run:
             if op["how"] in ("rebuild_h_plain", "both"):
                 graph = pysmiles.read_smiles(op["smiles"])
                 rebuild_h_atoms(graph)
+                out.append(str(len(graph)))
+            if op["how"] == "rebuild_h_keep_bonding":
+                # the documented keep_bonding option, used by a host program on a fragment of its own
+                graph = pysmiles.read_smiles(op["smiles"])
+                graph.nodes[0]["bonding"] = ["$1"]
+                rebuild_h_atoms(graph, keep_bonding=True)
                 out.append(str(len(graph)))
             return [sha(jdump(out))]
         if kind == "foreign_rng":
